@@ -214,7 +214,17 @@ class Gen:
         if r < 0.25:
             return f"{ind}if {rng.choice(CONDS)}:\n{inner()}"
         if r < 0.4 and wdepth == 0:
-            return f"{ind}if TYPE_CHECKING:\n{inner()}"
+            # the type-checking guard is recognised by its spelling: a name of that spelling bound to something else first
+            # (the import-free `TYPE_CHECKING = False` idiom, a compat module) changes nothing, a compound condition is no guard
+            pre = rng.choice(["", "", "", f"{ind}TYPE_CHECKING = False\n", f"{ind}from compat import TYPE_CHECKING\n",
+                              f"{ind}import typing\n"])
+            cond = rng.choice(["TYPE_CHECKING", "TYPE_CHECKING", "typing.TYPE_CHECKING", "not TYPE_CHECKING", "not typing.TYPE_CHECKING",
+                               "TYPE_CHECKING or flag", "flag or typing.TYPE_CHECKING", "(TYPE_CHECKING)", "TYPE_CHECKING is True",
+                               "t.TYPE_CHECKING"])
+            src = f"{pre}{ind}if {cond}:\n{inner()}"
+            if rng.random() < 0.3:
+                src += f"{ind}else:\n{self.nonstring_first(inner)}"
+            return src
         if r < 0.55:
             return f"{ind}if {rng.choice(CONDS)}:\n{inner()}{ind}else:\n{self.nonstring_first(inner)}"
         if r < 0.75:
